@@ -375,12 +375,15 @@ type phaseKey struct{}
 type phase struct {
 	fWant, fCount int
 	turn          []chan struct{} // turn[i] is closed when stub ecosystem i may enter; turn[0] when all queries are done
+	allQueried    bool            // the last FilesByLayer was granted success
+	released      bool
 	failed        bool
 }
 
 func NewWorld() *World {
 	w := &World{Store: memstore.New(), layerNo: map[string]int{}}
 	w.Store.Hook = w.storeHook
+	w.Store.AfterFiles = w.afterFiles
 	return w
 }
 
@@ -419,7 +422,10 @@ func (w *World) enterAs(ctx context.Context, letter byte, who string) (error, bo
 		if letter == 'F' && w.ph != nil {
 			w.ph.fCount++
 			if w.ph.fCount == w.ph.fWant {
-				close(w.ph.turn[0])
+				// released by afterFiles, once the call has really returned: the
+				// store method checks its context after this hook, and a coalescer
+				// released here could fail and cancel the group under its feet
+				w.ph.allQueried = true
 			}
 		}
 	}
@@ -466,6 +472,19 @@ func (w *World) enterAs(ctx context.Context, letter byte, who string) (error, bo
 	w.trace = append(w.trace, letter)
 	okF()
 	return nil, false
+}
+
+// afterFiles releases the stub coalescers when the last query of the coalesce
+// state has returned.
+func (w *World) afterFiles(ctx context.Context, c memstore.Call) {
+	w.mu.Lock()
+	defer w.mu.Unlock()
+	if ph := w.ph; w.active && ph != nil && ph.allQueried && !ph.released {
+		if own, _ := ctx.Value(phaseKey{}).(*phase); own == nil || own == ph {
+			ph.released = true
+			close(ph.turn[0])
+		}
+	}
 }
 
 func (w *World) storeHook(ctx context.Context, c memstore.Call) memstore.Verdict {
@@ -707,11 +726,18 @@ func (c *stubCoalescer) enter(ctx context.Context) error {
 	select {
 	case <-ph.turn[0]:
 	case <-ctx.Done():
-		select {
-		case <-ph.turn[0]:
-		default:
+		w.mu.Lock()
+		all := ph.allQueried
+		w.mu.Unlock()
+		if !all {
 			// the coalesce state was left before its last query: nobody waits for this result
 			return ctx.Err()
+		}
+		// the last query succeeded (the context went afterwards): the release is on its way
+		select {
+		case <-ph.turn[0]:
+		case <-time.After(20 * time.Second):
+			return errors.New("stub coalescer: never released")
 		}
 	}
 	select {
